@@ -1,6 +1,9 @@
 (* C04 -- per-connection callback lifecycle: open once, close once, nothing after
    close.  Statements only; proofs in Proofs/LoopLifecycle.v. *)
 From GV Require Import Lib.Trace Model.Loop Spec.LoopSpec Proofs.LoopLifecycle.
+From Coq Require Import Permutation.
+From GV Require Spec.FinMap Model.Registry Proofs.LoopAState.
+From GV Require Import Proofs.LoopRegistryLink.
 Open Scope Z_scope.
 
 (* For EVERY input stream (kernel results, handler scripts with any API calls
@@ -31,3 +34,84 @@ Print Assumptions C04_stale_wake_close.
 Theorem C04_count_matches : forall i t, run_history i = Some t -> count_ok t = true.
 Proof. exact count_matches. Qed.
 Print Assumptions C04_count_matches.
+
+(* What licenses the association list [l_reg] of Model/Loop.v.  In gnet the registry of an
+   event loop is connStore: a Go map plus a counter (conn_map.go) or, with the gc_opt build
+   tag, the compacting 256 x 65536 matrix (conn_matrix.go); Model/Loop.v holds it as an
+   association list fd -> cid and works on it with alookup (dispatch, the guards of el_close /
+   el_wake, fd_in_use), aset (el_register0), aremove (el_close), zlen (the `g count` marker =
+   Engine.CountConnections, checked by C04_count_matches) and close_conns (closes the registered
+   connections one by one in the order of the `pick` lines until the list is []).
+   For BOTH registry models of C14 (Model/Registry.v): if the registry represents the list R the
+   loop model holds ([map_rep] / [mat_rep]: getConn is [alookup _ R], loadCount is [zlen R], keys
+   and values of R distinct, representation invariant -- for the matrix [matrix_inv]), then
+   addConn of a fresh descriptor and connection / delConn of a registered connection / the
+   iteration of closeConns (visitor removes the visited connection) does not panic and leaves a
+   registry that represents [aset fd cid R] / [aremove fd R] / []; the visit list of that
+   iteration is a duplicate-free enumeration of the registered connections, and the orders in
+   which close_conns can empty the list ([empties_by]) are exactly such enumerations.
+   Matrix variant: for all ROW > 0, COL > 1, and registration only while fewer than ROW * COL
+   connections are registered -- AT capacity addConn drops the connection silently and the
+   registry does NOT become [aset fd cid R] (fourth matrix clause; C14_matrix_add_at_capacity_drops).
+   The last three clauses discharge the side conditions from the loop model: under the relation
+   [Rst] that Proofs/LoopATop.v maintains along every run, keys and values of [l_reg] are
+   distinct, a registration that passed the [fd_in_use] guard is of a fresh descriptor and a
+   fresh connection, and the entry el_close removes is the closing connection's.
+   Each clause is an instance of a theorem of Properties/C14.v / of the per-operation simulation
+   lemmas behind C14_map_registry_refines_map (Proofs/LoopRegistryLink.v). *)
+Theorem C04_registry_link :
+  (* --- conn_map.go --- *)
+  map_rep Registry.mp_init [] /\
+  (forall st reg, map_rep st reg ->
+     (forall fd, Registry.mp_get st fd = Loop.alookup fd reg) /\
+     (forall fd, (match Registry.mp_get st fd with Some _ => true | None => false end) =
+                 (match Loop.alookup fd reg with Some _ => true | None => false end)) /\
+     Registry.mp_load st = Loop.zlen reg) /\
+  (forall st reg id fd, map_rep st reg -> Loop.alookup fd reg = None -> ~ In id (map snd reg) ->
+     map_rep (Registry.mp_add st id fd) (Loop.aset fd id reg) /\
+     Registry.mp_load (Registry.mp_add st id fd) = Loop.zlen reg + 1) /\
+  (forall st reg id fd, map_rep st reg -> Loop.alookup fd reg = Some id ->
+     exists st', Registry.mp_del st id = Ret st' /\ map_rep st' (Loop.aremove fd reg) /\
+       Registry.mp_load st' = Loop.zlen reg - 1) /\
+  (forall st reg m k, map_rep st reg -> (forall fd, FinMap.del_pred m k fd = true) ->
+     exists st' vis, Registry.mp_iterate st m k (-1) = Ret (st', vis) /\ map_rep st' [] /\
+       NoDup vis /\ Permutation vis (map snd reg) /\ empties_by reg vis) /\
+  (* --- conn_matrix.go --- *)
+  (forall ROW COL, 0 < ROW -> 1 < COL ->
+     mat_rep ROW COL Registry.mx_init [] /\
+     (forall st reg, mat_rep ROW COL st reg ->
+        (forall fd, Registry.mx_get st fd = Loop.alookup fd reg) /\
+        (forall fd, (match Registry.mx_get st fd with Some _ => true | None => false end) =
+                    (match Loop.alookup fd reg with Some _ => true | None => false end)) /\
+        Registry.mx_load ROW st = Loop.zlen reg) /\
+     (forall st reg id fd, mat_rep ROW COL st reg -> Loop.zlen reg < ROW * COL ->
+        Loop.alookup fd reg = None -> ~ In id (map snd reg) ->
+        mat_rep ROW COL (Registry.mx_add ROW COL st id fd) (Loop.aset fd id reg) /\
+        Registry.mx_load ROW (Registry.mx_add ROW COL st id fd) = Loop.zlen reg + 1) /\
+     (forall st reg id fd, mat_rep ROW COL st reg -> Loop.zlen reg = ROW * COL ->
+        Loop.alookup fd reg = None ->
+        (forall fd', Registry.mx_get (Registry.mx_add ROW COL st id fd) fd' = Loop.alookup fd' reg) /\
+        Registry.mx_get (Registry.mx_add ROW COL st id fd) fd = None /\
+        Loop.alookup fd (Loop.aset fd id reg) = Some id /\
+        Registry.mx_load ROW (Registry.mx_add ROW COL st id fd) = Loop.zlen reg) /\
+     (forall st reg id fd, mat_rep ROW COL st reg -> Loop.alookup fd reg = Some id ->
+        exists st', Registry.mx_del ROW COL st id = Ret st' /\ mat_rep ROW COL st' (Loop.aremove fd reg) /\
+          Registry.mx_load ROW st' = Loop.zlen reg - 1) /\
+     (forall st reg m k, mat_rep ROW COL st reg -> (forall fd, FinMap.del_pred m k fd = true) ->
+        exists st' vis, Registry.mx_iterate ROW COL st m k (-1) = Ret (st', vis) /\ mat_rep ROW COL st' [] /\
+          NoDup vis /\ Permutation vis (map snd reg) /\ empties_by reg vis)) /\
+  (* --- the emptying orders of close_conns are exactly the visit lists --- *)
+  (forall reg vis, NoDup (map fst reg) -> NoDup (map snd reg) ->
+     (empties_by reg vis <-> NoDup vis /\ Permutation vis (map snd reg))) /\
+  (* --- the side conditions hold in the loop model --- *)
+  (forall L P N m s, LoopAState.Rst L P N m s ->
+     NoDup (map fst (Loop.l_reg s)) /\ NoDup (map snd (Loop.l_reg s))) /\
+  (forall L P N m s cid, LoopAState.Rst L P N m s ->
+     Loop.fd_in_use s (Loop.c_fd (Loop.getc s cid)) = false ->
+     Loop.alookup (Loop.c_fd (Loop.getc s cid)) (Loop.l_reg s) = None /\
+     ~ In cid (map snd (Loop.l_reg s))) /\
+  (forall L P N m s cid x, LoopAState.Rst L P N m s ->
+     Loop.c_opened (Loop.getc s cid) = true ->
+     Loop.alookup (Loop.c_fd (Loop.getc s cid)) (Loop.l_reg s) = Some x -> x = cid).
+Proof. exact registry_link. Qed.
+Print Assumptions C04_registry_link.
